@@ -94,6 +94,66 @@ def scribble_verbatim(run, model):
     run.floor('scribble definitions', len(fs), 1)
 
 
+class _Handler:
+    """a state handler stand-in: callable, named, answers with a fixed status"""
+    def __init__(self, name, status):
+        self.__name__ = name
+        self.status = status
+        self.calls = 0
+
+    def __call__(self, *a):
+        self.calls += 1
+        return self.status
+
+
+def hook_eval(run, model, so, inner):
+    """SPY.hook-marker by evaluation: the spy wrapper is run on a scratch chart for every status a handler can answer with and for an inner and an outer signal: the
+    step log must read [offer] plus [offer:HOOK] exactly when the status is HANDLED and the signal is not an inner one; the handler runs exactly once"""
+    from sa import pureeval
+    statuses = ('HANDLED', 'SUPER', 'UNHANDLED', 'IGNORED', 'TRAN', 'ENTRY', 'EXIT', 'INIT', 'Q_RET_NULL')
+    rs = pureeval.Obj(**{s_: pureeval.Obj(__name__=s_) for s_ in statuses})
+    inner_names = {'ENTRY_SIGNAL', 'EXIT_SIGNAL', 'INIT_SIGNAL'}
+    sig = pureeval.Obj(is_inner_signal=lambda nm: nm in inner_names, REFLECTION_SIGNAL=4, ENTRY_SIGNAL=1, EXIT_SIGNAL=2, INIT_SIGNAL=3)
+    tuples = []
+
+    def spy_tuple(**kw):
+        o = pureeval.Obj(**kw)
+        tuples.append(o)
+        return o
+    bad = None
+    n = 0
+    try:
+        for st_name in ('HANDLED', 'SUPER', 'UNHANDLED', 'IGNORED', 'TRAN'):
+            for sname, snum in (('USER_SIGNAL', 50), ('ENTRY_SIGNAL', 1)):
+                h = _Handler('state_a', getattr(rs, st_name))
+                chart = pureeval.Obj(instrumented=True, rtc=pureeval.Obj(spy=[], tuples=[]), spied_on=False, state_name=None, state_fn=None, name='c')
+                ev_ = pureeval.Obj(signal_name=sname, signal=snum, payload=None)
+                g_ = dict(pureeval.module_constants(model, so.module))
+                g_.update({so.params[0]: h, 'signals': sig, 'return_status': rs, 'spy_tuple': spy_tuple, 'SpyTuple': spy_tuple,
+                           'inspect': pureeval.Obj(ismethod=lambda f_: False), 'stdlib_datetime': pureeval.Obj(now=lambda: 0)})
+                for f_ in model.all_funcs():
+                    if f_.module is so.module and f_.cls is None and f_.parent is None and f_.name not in g_:
+                        g_[f_.name] = pureeval.Closure(f_.node, g_)
+                try:
+                    got = pureeval.call(inner.node, [chart, ev_], globals_=g_, mutable=True, strict_locals=True)
+                except pureeval.Raised as ex:
+                    got = 'raises ' + ex.what
+                n += 1
+                offer = '%s:%s' % (sname, 'state_a')
+                want = [offer] + ([offer + ':HOOK'] if st_name == 'HANDLED' and sname not in inner_names else [])
+                log = list(chart.rtc.spy)
+                if (log != want or h.calls != 1 or got is not h.status) and bad is None:
+                    bad = (st_name, sname, log, want, h.calls, got)
+    except AnalysisError as ex:
+        run.note('the spy wrapper is outside the evaluator\'s fragment (%s): its HOOK line is decided structurally' % ex)
+        return False
+    run.inst('SPY.hook-marker', inner, 'spy wrapper evaluated over %d status x signal cases: offer line, HOOK line iff HANDLED and not an inner signal, handler called once' % n, bad is None,
+             '' if bad is None else ('for a handler answering %s to %s the step log reads %s, expected %s (handler calls: %d, wrapper returns %s): the HOOK marker no longer says '
+                                     '"this state handled the event internally"' % (bad[0], bad[1], bad[2], bad[3], bad[4],
+                                                                                 getattr(bad[5], '__name__', bad[5]))), obligation=True)
+    return True
+
+
 def check(run, model, tier):
     run.explanation = ('Dominance and control-dependence analysis of the spy wrapper and of the marker wrappers, plus a who-writes census of the four '
                        'ring buffers over the whole package. Because all 29 handler-call sites of the processor go through the decorated handler '
@@ -162,10 +222,23 @@ def check(run, model, tier):
                 defs.setdefault(st.targets[0].id, []).append(st.value)
         ok = ok and (args[1] == fnp + '.__name__' or (args[1] in defs and all(norm(v) == fnp + '.__name__' for v in defs[args[1]])))
         run.inst('SPY.offer-before-call', inner, 'offer line is "<e.signal_name>:<handler name>"', ok, 'offer line is built from %s' % args, node=c, obligation=True)
-    # ---- HOOK
-    for n, c, a in hooks:
+    # ---- HOOK: decided by evaluating the wrapper on a scratch chart (status x inner/outer signal) when the evaluator can follow it; the structural reading below otherwise
+    hook_decided = hook_eval(run, model, so, inner)
+    for n, c, a in ([] if hook_decided else hooks):
         st_tests = [t for t in g.nodes if t.kind == 'test' and isinstance(t.ast, ast.Compare) and any(status_const(x) == 'HANDLED' for x in ast.walk(t.ast))]
-        in_tests = [t for t in g.nodes if t.kind == 'test' and any(isinstance(x, ast.Attribute) and x.attr == 'is_inner_signal' for x in ast.walk(t.ast))]
+        # (the answer may have been taken into a local first: `inner = signals.is_inner_signal(..)` ... `if inner is not True:`)
+        idefs_ = local_defs(inner.node)
+
+        def asks_inner(t_):
+            for x in ast.walk(t_):
+                if isinstance(x, ast.Attribute) and x.attr == 'is_inner_signal':
+                    return True
+                if isinstance(x, ast.Name):
+                    ds_ = [d_ for d_ in idefs_.get(x.id, []) if isinstance(d_, ast.AST)]
+                    if len(ds_) == 1 and len(idefs_.get(x.id, [])) == 1 and isinstance(ds_[0], ast.Call) and norm(ds_[0].func).endswith('.is_inner_signal'):
+                        return True
+            return False
+        in_tests = [t for t in g.nodes if t.kind == 'test' and asks_inner(t.ast)]
         ok1 = any(isinstance(t.ast.ops[0], (ast.Is, ast.Eq)) and guarded_by_edge(g, n, t, 'true') for t in st_tests)
         if not ok1:
             # the same through a local that holds the comparison (`is_hook = status is HANDLED` ... `if is_hook:`): the conditions that must hold at the HOOK line
